@@ -193,11 +193,12 @@ class CondV:
 class RecV:
     """Spec-side worklist record: record type + list of field strings (joined by ';' when printed)."""
 
-    __slots__ = ("kind", "fields")
+    __slots__ = ("kind", "fields", "sep")
 
-    def __init__(self, kind, fields):
+    def __init__(self, kind, fields, sep=";"):
         self.kind = kind
         self.fields = list(fields)
+        self.sep = sep
 
 
 class WellV:
